@@ -493,7 +493,9 @@ class C20(Scenario):
         rng = random.Random(f"{seed}:ops")
         cfg = random.Random(f"{seed}:cfg")
         m = fm.Model()
-        pre = fm.gen_ops(rng, m, rng.randrange(0, 5), paced=False, allow={"mkdir", "mkfile", "makedirs"})
+        # 10% of the runs use names that begin with U+FEFF / U+FFFE (legal file names; in UTF-16 they look like byte-order marks)
+        names = ("\ufeffa", "b", "\ufffec") if random.Random(f"{seed}:names").random() < 0.1 else ("a", "b", "c")
+        pre = fm.gen_ops(rng, m, rng.randrange(0, 5), names=names, paced=False, allow={"mkdir", "mkfile", "makedirs"})
         m.drain()
         paced = cfg.random() < 0.7
         w = dict(fm.DEFAULT_WEIGHTS)
@@ -504,7 +506,7 @@ class C20(Scenario):
         # "nothing real goes unreported": 40% of the racing runs ignore it (only the missing-entries oracle applies)
         grouped = (not paced) and cfg.random() < 0.35  # paced histories whose notifications are delivered per group of operations
         unpaced = (not paced) and not grouped and cfg.random() < 0.6
-        ops_all = fm.gen_ops(rng, m, rng.randrange(1, 10), weights=w, paced=not unpaced, drain_each=paced, allow=self.ALLOW)
+        ops_all = fm.gen_ops(rng, m, rng.randrange(1, 10), names=names, weights=w, paced=not unpaced, drain_each=paced, allow=self.ALLOW)
         mm = fm.Model()
         for op in pre:
             fm.apply(mm, op)
